@@ -1,5 +1,6 @@
 import GeomV.C13.Lemmas
 import GeomV.C13.Arith
+import GeomV.C13.Simple
 /-!
 # C13 — Simplify keeps endpoints, stays within tolerance and adds no self-intersection
 
@@ -172,17 +173,36 @@ theorem C13_input_unchanged {m m' : Mem} {tol : Rat} (h : runMem m tol = .ok m')
   | error e => simp [hs, Functor.map, Except.map] at h
   | ok o => simp [hs, Functor.map, Except.map] at h; subst h; exact ⟨rfl, rfl⟩
 
-/-- **No new self-intersection, as far as the code's own guard goes** (partial): with the kept
-positions `is` of `C13_tolerance`, every output segment `c[a] – c[b]` that replaces at least one
-vertex (`a + 1 < b`) — the closing segment included — was accepted by all three
-`segMakesNotSimple` calls: against the output built so far (`out[0:a]` as the code slices it),
-against the rest of the curve `c[b+1:]`, and against the obstacle curves.
+/-- **Simplicity is preserved** (the clause as quantified in the property): if an open line string
+is simple (no two segments meet except consecutive ones in their shared vertex) and in general
+position (vertices pairwise distinct, no three collinear), the answer of `LineString.Simplify` is
+simple, for every tolerance.  Proof: `Geo.count_zero_iff_not_meet` (`findIntersection` returns 0
+exactly when two segments in general position are disjoint), `Geo.clearCount_of_scan`
+(`segMakesNotSimple` really looks at every earlier output segment and every later curve segment —
+the early `return false` only fires at the segment that ends in `curve[i]`, and the zero padding of
+`out[0:i]` lies behind it), `Geo.chord_simple` (replacing a run of vertices of a simple polyline by
+an accepted chord keeps it simple) and the replay `Simple.simple_of_good` over the kept positions,
+closing segment included (it is accepted by the same guard since fix 912b355). -/
+theorem C13_simple {c : Path} {tol : Rat} {out : Path}
+    (hS : Spec.Simple c = true) (hG : Spec.GenPos c = true) (h : simplifyLS c tol = .ok out) :
+    Spec.Simple out = true := by
+  obtain ⟨out', is, e, g⟩ := simplifyCurve_ok c [] tol
+  unfold simplifyLS at h
+  rw [h] at e; cases e
+  exact simple_of_good hS hG g
 
-Full statement (not proved here): `Spec.Simple c ∧ Spec.GenPos c → Spec.Simple out` for
-`simplifyLS c tol = .ok out`.  Missing: that `findIntersectionCount = 0` means "the closed segments
-are disjoint" for segments in general position (the collinear branch of `findIntersection` is not a
-correct overlap test, see notes), and the induction that `out ++ c[i+1:]` stays simple.  The clause
-is exercised by the correspondence run on simple lines in general position (class `*-simplegp*`). -/
+/-- **What the guard guarantees for every curve type** (rings and obstacle curves included, no
+general-position hypothesis): with the kept positions `is` of `C13_tolerance`, every output segment
+`c[a] – c[b]` that replaces at least one vertex (`a + 1 < b`) — the closing segment included — was
+accepted by all three `segMakesNotSimple` calls: against the output built so far (`out[0:a]` as the
+code slices it), against the rest of the curve `c[b+1:]`, and against the obstacle curves.
+
+This is weaker than "no new crossing" for polygons: the property claims simplicity only for open
+line strings (`C13_simple`).  For rings `segMakesNotSimple` stops at the first segment that shares
+an endpoint with the chord, which for the obstacle list of `Polygon.Simplify` (the polygon's own
+rings, the ring itself first) happens before the later rings are looked at; and the collinear
+branch of `findIntersection` is not a correct overlap test (it divides by a length where a squared
+length is needed), which is why general position is assumed in `C13_simple`.  See notes/C13.md. -/
 theorem C13_simple_partial {c : Path} {others : List Path} {tol : Rat} {out : Path}
     (h : simplifyCurve c others tol = .ok out) :
     ∃ is, Spec.Valid c is out tol 0 = true ∧
